@@ -6856,3 +6856,74 @@ def flatten_chain_lists(tree):
     if done:
         ast.fix_missing_locations(tree)
     return done
+
+
+def conditional_arguments(fn):
+    """`f(a=<X> if flag else n)` (flag and n plain names, n not read after
+    the statement) -> `if flag: n = <X>` in front and `f(a=n)`"""
+    done = False
+    for par in [fn] + list(_walk_own(fn)):
+        for fld in ("body", "orelse", "finalbody"):
+            blk = getattr(par, fld, None)
+            if not isinstance(blk, list):
+                continue
+            i = 0
+            while i < len(blk):
+                st = blk[i]
+                i += 1
+                if not isinstance(st, (ast.Assign, ast.Return, ast.Expr)) \
+                        or any(isinstance(x, (ast.For, ast.While))
+                               and any(y is st for y in ast.walk(x))
+                               for x in ast.walk(fn)):
+                    continue
+                call = st.value
+                if isinstance(call, ast.Subscript):
+                    call = call.value
+                if not isinstance(call, ast.Call):
+                    continue
+                for holder, attr in [(k, "value") for k in call.keywords] + [
+                        (call.args, j) for j in range(len(call.args))]:
+                    e = getattr(holder, attr) if isinstance(attr, str) \
+                        else holder[attr]
+                    if not (isinstance(e, ast.IfExp) and isinstance(
+                            e.test, ast.Name)):
+                        continue
+                    if isinstance(e.orelse, ast.Name):
+                        n, x, neg = e.orelse, e.body, False
+                    elif isinstance(e.body, ast.Name):
+                        n, x, neg = e.body, e.orelse, True
+                    else:
+                        continue
+                    if n.id == e.test.id:
+                        continue
+                    here = _from_here(fn, st)
+                    inside = {id(y) for y in ast.walk(st)}
+                    if any(isinstance(y, ast.Name) and y.id == n.id
+                           and id(y) in here and id(y) not in inside
+                           for y in ast.walk(fn)):
+                        continue
+                    # n is read once in the statement apart from the
+                    # conditional expression itself
+                    in_e = {id(y) for y in ast.walk(e)}
+                    if any(isinstance(y, ast.Name) and y.id == n.id
+                           and id(y) in inside and id(y) not in in_e
+                           for y in ast.walk(st)):
+                        continue
+                    test = e.test if not neg else ast.UnaryOp(
+                        op=ast.Not(), operand=e.test)
+                    pre = ast.If(test=test, body=[ast.Assign(
+                        targets=[ast.Name(id=n.id, ctx=ast.Store())],
+                        value=x)], orelse=[])
+                    ast.copy_location(pre, st)
+                    new_arg = ast.copy_location(
+                        ast.Name(id=n.id, ctx=ast.Load()), e)
+                    if isinstance(attr, str):
+                        setattr(holder, attr, new_arg)
+                    else:
+                        holder[attr] = new_arg
+                    ast.fix_missing_locations(pre)
+                    blk.insert(i - 1, pre)
+                    i += 1
+                    done = True
+                    break
+    return done
